@@ -161,6 +161,12 @@ func disjunctionCaseForType(typesFormatter *typeFormatter, input string, typeDef
  *****************************************/
 
 func defaultValueForType(config Config, schemas ast.Schemas, typeDef ast.Type, defaultsOverrides *orderedmap.Map[string, any]) any {
+	return defaultValueForTypeRec(config, schemas, typeDef, defaultsOverrides, make(map[string]struct{}))
+}
+
+// following holds the references to disjunctions being followed: a disjunction can refer to
+// itself through its first branch (`D: D | string`).
+func defaultValueForTypeRec(config Config, schemas ast.Schemas, typeDef ast.Type, defaultsOverrides *orderedmap.Map[string, any], following map[string]struct{}) any {
 	if !typeDef.IsRef() && typeDef.Default != nil {
 		return typeDef.Default
 	}
@@ -171,7 +177,7 @@ func defaultValueForType(config Config, schemas ast.Schemas, typeDef ast.Type, d
 			return nil
 		}
 
-		return defaultValueForType(config, schemas, typeDef.AsDisjunction().Branches[0], nil)
+		return defaultValueForTypeRec(config, schemas, typeDef.AsDisjunction().Branches[0], nil, following)
 	case ast.KindRef:
 		ref := typeDef.AsRef()
 		referredPkg := formatPackageName(ref.ReferredPkg)
@@ -187,7 +193,12 @@ func defaultValueForType(config Config, schemas ast.Schemas, typeDef ast.Type, d
 
 			return raw(fmt.Sprintf(config.fullNamespaceRef(referredPkg+"\\"+formatObjectName(referredObj.Name))+"::%s()", enumName))
 		} else if found && referredObj.Type.IsDisjunction() {
-			return defaultValueForType(config, schemas, referredObj.Type, nil)
+			if _, found := following[ref.String()]; found {
+				return nil
+			}
+			following[ref.String()] = struct{}{}
+
+			return defaultValueForTypeRec(config, schemas, referredObj.Type, nil, following)
 		}
 
 		var extraDefaults []string
